@@ -80,6 +80,7 @@ def run(ctx, rep):
     R5 = rep.rule('C03.R5', 'every unticked node passing a rule\'s filters stays a candidate of that rule until ticked (FilterNodeCache folded)')
     n = common.bookkeeping(ctx, rep, R5, 'C03.R5', only=('fold_filter_cache',))
     rep.floor('C03.R5', 'filter cache cases', n, 9)
+    r6(ctx, rep)
 
     R3 = rep.rule('C03.R3', 'local-expansion termination of every truth-functional shape with opaque operands; operator rules tick')
     nshape = 0
@@ -176,3 +177,23 @@ def run(ctx, rep):
 def fmt_t(t):
     from ..schema import fmt
     return fmt(t)
+
+
+def r6(ctx, rep):
+    """The step loop decides only if it finds an applicable rule whenever one exists: Rule.target and the group application
+    (Tableau._get_group_application / _select_optim_group_application) folded for every value of the search options (sa.search,
+    shared with C09.R2)."""
+    from .. import search
+    m = ctx.m
+    R6 = rep.rule('C03.R6', 'the step loop finds an applicable rule whenever one exists: Rule.target and the group application folded over mock rules/targets '
+                            'for every value of is_group_optim / is_rank_optim -- a rule with a target is never passed over, whatever the options')
+    n = 0
+    for fold in (search.fold_rule_target, search.fold_group_application):
+        res, cons = fold(m)
+        rep.consult(*cons)
+        for ok, case, detail in res:
+            n += 1
+            rep.instance(R6, ok=ok, nontrivial=(fold.__name__, case))
+            if not ok:
+                rep.finding(R6, f'C03.R6/{fold.__name__[5:]}/{case}', cons[0].split(' ')[0], fold.__name__[5:], f'{case}: {detail}')
+    rep.floor('C03.R6', 'choice cases', n, 15)
